@@ -131,6 +131,30 @@ func growTarget(t *rapid.T, sc *Scenario) {
 	}
 	sp := &rs.Shards[si]
 	sp.Held = []Held{{Hash: tg.Hash, Health: "up", Times: uint64(rapid.IntRange(3, 9).Draw(t, "grownTimes")), Series: tg.Series, Total: tg.Total}}
+	if rapid.Bool().Draw(t, "grownNothingElseUnscraped") {
+		// nothing else waits for a shard: whatever scale-up is requested is requested because of the grown target
+		held := map[uint64]bool{}
+		for i := range rs.Shards {
+			for _, h := range rs.Shards[i].Held {
+				held[h.Hash] = true
+			}
+		}
+		var keep []TargetSpec
+		for _, x := range sc.Targets {
+			if held[x.Hash] {
+				keep = append(keep, x)
+			}
+		}
+		sc.Targets = keep
+	}
+	switch rapid.IntRange(0, 5).Draw(t, "grownCopy") {
+	case 0:
+		sp.Held[0].Health = "down" // it has grown so much that its scrapes time out now
+	case 1:
+		sp.Held[0].Times = uint64(rapid.IntRange(0, 2).Draw(t, "grownFewScrapes")) // the sidecar restarted
+	case 2:
+		sp.Held[0].State = "in_transfer" // it grew while it was being handed over and the other copy is gone
+	}
 	sp.HeadExtra, sp.Head2 = 0, 0
 }
 
